@@ -52,6 +52,8 @@ def parse_unit(path):
                 f['top'] = _tag(text, 'GHOST')
             elif kind == 'bottom':
                 f['bottom'] = _tag(text, 'GHOST')
+            elif kind == 'end':
+                f['end'] = _tag(text, 'GHOST')
             elif kind == 'decreases':
                 f['decreases'] = text.strip()
             elif kind == 'loop':
@@ -138,7 +140,7 @@ def parse_unit(path):
         elif word in ('requires', 'ensures'):
             m = re.match(r'\[([^\]]+)\]', rest)
             sec = (word, m.group(1) if m else f"{cur_fn['name']}.{word}")
-        elif word in ('top', 'bottom', 'decreases'):
+        elif word in ('top', 'bottom', 'end', 'decreases'):
             sec = (word, None)
         elif word == 'loop':
             toks = rest.split()
@@ -203,6 +205,13 @@ def validate_struct(repo, st):
         pf = {}
         for fm in re.finditer(r'(?m)^\s*(?:pub\s+)?(\w+)\s*:\s*([^\n]+?),?\s*(?://.*)?$', body):
             pf[fm.group(1)] = fm.group(2).rstrip(',').strip()
+        ghost_fields = sorted(n_ for n_, t_ in pf.items() if t_.startswith('Ghost<'))
+        for n_ in ghost_fields:
+            if n_ in rf:
+                raise ExtractError(f"projection: ghost field {a['name']}.{n_} collides with a real field")
+            del pf[n_]
+        if ghost_fields:
+            log.append(f"ghost fields added to {a['name']} (specification state only, erased at run time): {ghost_fields}")
         for name, ty in pf.items():
             if name not in rf:
                 raise ExtractError(f"projection: field {a['name']}.{name} no longer exists in {a['file']}")
